@@ -593,6 +593,14 @@ class LSMTree(Entity):
             pages = max(1, new_sst.key_count // 16)
             yield pages * self._sstable_write_latency
 
+            # The inputs were read before the write latency: if another
+            # compaction consumed any of them meanwhile, installing this
+            # (older) merge as the newest run would shadow fresher data
+            if any(sst not in self._levels[source_level] for sst in sstables) or any(
+                sst not in self._levels[target_level] for sst in overlapping
+            ):
+                return
+
             # Remove old SSTables and add new one
             for sst in sstables:
                 if sst in self._levels[source_level]:
